@@ -9,12 +9,11 @@ RULE = ("ser: seeded random object trees (depth <= 8, <= 200 nodes; strings over
         "#xx, odd hex, signs, comments, skipped bytes) -> PdfObject::parse vs the model. incr: incremental writer's serializer. "
         "non-trivial = nested tree with >= 3 nodes (ser/incr), text longer than 6 bytes (lex); distinct by case text")
 
+# C09-name-nonascii and C09-incr-nonascii-name are FIXED (fix_name_utf8): a non-ASCII name that does not read back is a VIOLATION
 KNOWN = {
-    "name-nonascii": "C09-name-nonascii",
     "int-int-nameR": "C09-int-int-nameR",
     "real-ge-2p63": "C09-real-ge-2p63",
     "objnum-gt-9999999": "C09-objnum-gt-9999999",
-    "incr-nonascii-name": "C09-incr-nonascii-name",
 }
 
 
